@@ -132,4 +132,123 @@ theorem ow_resume_recovery (s : AState) (a : Acct) (fee : Bool) (f : Option (Nat
           · exact ow_write _ _
   · exact ow_resumeRest s a (Or.inl h)
 
+
+/-! ### the stored secret -/
+
+/-- the stored record (if any) carries secret `x` -/
+def SecOK (x : Nat) (s : AState) : Prop := ∀ b, s.acct = some b → b.secret = x
+
+theorem secOK_frame {x : Nat} {s s' : AState} (h : SecOK x s) (ha : s'.acct = s.acct) : SecOK x s' :=
+  fun b hb => h b (ha ▸ hb)
+
+theorem secOK_write {x : Nat} (s : AState) (a : Acct) (ha : a.secret = x) : SecOK x (write s a) := by
+  intro b hb
+  have : b = a.stored := (Option.some.inj hb).symm
+  subst this
+  unfold Acct.stored; split <;> exact ha
+
+theorem secOK_handleExpiry {x : Nat} {s : AState} (h : SecOK x s) : SecOK x (handleExpiry s) := by
+  unfold handleExpiry
+  split
+  · exact h
+  · rename_i a ha
+    split
+    · exact secOK_write s _ (h a ha)
+    · exact h
+
+theorem secOK_watchExpiration {x : Nat} {s : AState} (h : SecOK x s) (e : Nat) :
+    SecOK x (watchExpiration s e) := by
+  unfold watchExpiration
+  split
+  · exact secOK_handleExpiry (secOK_frame h rfl)
+  · exact secOK_frame h rfl
+
+theorem secOK_handleStateOpen {x : Nat} {s : AState} (h : SecOK x s) (a : Acct) :
+    SecOK x (handleStateOpen s a) := by
+  unfold handleStateOpen
+  simp only []
+  have h1 : ∀ s : AState, SecOK x s → SecOK x (if Lifecycle.handleStateOpenCalls.contains "WatchAccountSpend"
+      then regSpend s a.outpoint (a.script s.key) else s) := by
+    intro s hs; split
+    · exact secOK_frame hs rfl
+    · exact hs
+  have h2 : ∀ s : AState, SecOK x s → SecOK x (if Lifecycle.handleStateOpenCalls.contains "WatchAccountExpiration"
+      then watchExpiration s a.expiry else s) := by
+    intro s hs; split
+    · exact secOK_watchExpiration hs _
+    · exact hs
+  exact h2 _ (h1 s h)
+
+theorem secOK_watchers {x : Nat} {s : AState} (h : SecOK x s) (a : Acct) (acts : List String) :
+    SecOK x (watchers s a acts) := by
+  unfold watchers
+  simp only []
+  have h1 : ∀ s : AState, SecOK x s → SecOK x (if acts.contains "WatchAccountConf" then regConf s a.outpoint.txid (a.script s.key) else s) := by
+    intro s hs; split
+    · exact secOK_frame hs rfl
+    · exact hs
+  have h2 : ∀ s : AState, SecOK x s → SecOK x (if acts.contains "handleStateOpen" then handleStateOpen s a else s) := by
+    intro s hs; split
+    · exact secOK_handleStateOpen hs a
+    · exact hs
+  have h3 : ∀ s : AState, SecOK x s → SecOK x (if acts.contains "WatchAccountSpend" then regSpend s a.outpoint (a.script s.key) else s) := by
+    intro s hs; split
+    · exact secOK_frame hs rfl
+    · exact hs
+  exact h3 _ (h2 _ (h1 s h))
+
+theorem secOK_maybeBroadcast {x : Nat} {s : AState} (h : SecOK x s) (t : Tx) : SecOK x (maybeBroadcast s t) := by
+  unfold maybeBroadcast
+  split
+  · exact secOK_frame h rfl
+  · exact h
+
+theorem secOK_rebroadcast {x : Nat} {s : AState} (h : SecOK x s) (a : Acct) (r : Bool) (acts : List String) :
+    SecOK x (rebroadcast s a r acts).1 := by
+  unfold rebroadcast
+  repeat' split
+  all_goals (simp only [])
+  all_goals first
+    | exact h
+    | exact secOK_maybeBroadcast h _
+    | (split <;> first | exact h | exact secOK_maybeBroadcast h _)
+
+theorem secOK_resumeRest {x : Nat} {s : AState} (h : SecOK x s) (a : Acct) (r : Bool) :
+    SecOK x (resumeRest s a r).1 := by
+  unfold resumeRest
+  split
+  · exact h
+  · simp only []
+    split
+    · exact secOK_watchers (secOK_rebroadcast h _ _ _) _ _
+    · exact secOK_rebroadcast h _ _ _
+
+theorem fundOrLocate_acct {s s' : AState} {a : Acct} {r1 r2 fee : Bool} {f : Option (Nat × Nat)}
+    {acts : List String} {t : Tx} (h : fundOrLocate s a r1 r2 fee f acts = .got s' t) : s'.acct = s.acct := by
+  unfold fundOrLocate at h
+  simp only [] at h
+  split at h
+  · simp at h; rw [← h.1]
+  · repeat' split at h
+    all_goals (try (simp at h))
+    rw [← h.1]
+
+theorem secOK_resume {x : Nat} {s : AState} (h : SecOK x s) (a : Acct) (ha : a.secret = x)
+    (r1 r2 fee : Bool) (f : Option (Nat × Nat)) : SecOK x (resume s a r1 r2 fee f).1 := by
+  unfold resume
+  split
+  · split
+    · exact h
+    · split
+      · exact h
+      · exact secOK_write s _ ha
+      · rename_i s' t hg
+        split
+        · exact secOK_frame h (fundOrLocate_acct hg)
+        · simp only []
+          split
+          · exact secOK_resumeRest (secOK_write _ _ (by exact ha)) _ _
+          · exact secOK_write _ _ (by exact ha)
+  · exact secOK_resumeRest h a r1
+
 end Pool.C20
